@@ -139,6 +139,9 @@ type machine struct {
 	syncMaps  map[*value]*omap
 	timerObjs map[*value]*vtimer
 	ptrIDs    map[*value]int
+	observer  value
+	inObserver bool
+	observerCalls int
 	symMapOrder bool
 	probeName string
 }
